@@ -78,7 +78,7 @@ func evalC05(c *Ctx, cs *Case) {
 		sp.Heading = 0
 	}
 	doc := gen.Spell(f, sp)
-	branches := []int{0, 3, 4}
+	branches := []int{0, 3, 4, 6, 2}
 	if cs.Kind != "exhaustive" {
 		branches = []int{r.Intn(len(BranchTuples))}
 	}
